@@ -171,6 +171,9 @@ pub fn wdec(ctx: &mut Ctx, plan: DecPlan) {
             for (cls, m) in gen::structural_mutants(&rec, &mut r) {
                 judge_input(ctx, cls, &m, nt);
             }
+            for (cls, m) in gen::header_flips(&bytes) {
+                judge_input(ctx, cls, &m, nt);
+            }
         }
         if plan.size_sweep_every > 0 && b % plan.size_sweep_every == 0 && !cfg!(miri) {
             for (cls, m) in gen::size_sweep(&rec) {
